@@ -1014,6 +1014,8 @@ package yqlib
 //@   modifies lastEvalOut, prevEvalOut
 //@   at GetMatchingNodes#1: assert @lhs-on-the-input {C01} arg1.MatchingNodes == context.MatchingNodes && arg1.DontAutoCreate == context.DontAutoCreate && arg2 == expressionNode.LHS
 //@   at GetMatchingNodes#2: assert @rhs-on-the-lhs-results {C01} arg1.MatchingNodes == lastEvalOut && arg1.DontAutoCreate == context.DontAutoCreate && arg2 == expressionNode.RHS
+//@   at ChildContext#1: assert @rhs-runs-in-a-child-of-the-pipes-own-scope {C01} arg1 == lastEvalOut // not in whatever scope the left side returned (reduce returns its accumulator's)
+//@   at ChildContext#2: assert @result-in-a-child-of-the-pipes-own-scope {C01} arg1 == lastEvalOut
 //@   ensures @result-is-the-rhs-result {C01} implies(result1 == nil && expressionNode.LHS.Operation.OperationType != assignVariableOpType, result0.MatchingNodes == lastEvalOut && result0.DontAutoCreate == context.DontAutoCreate)
 
 // the "LHS as $x | RHS" form; not under contract yet (assumed)
